@@ -144,7 +144,8 @@ Nav ==
                     PI!FieldEnsure(P, buf, nm, ty), C!LookupEnsure(c, buf, nm, ty), "hit")
      \/ /\ "raw" \in Ops /\ C!CanGetRaw(c)
         /\ LET a == C!GetRaw(c) IN
-           \E op \in {"raw", "tw"} : Step(op, "", PI!GetRaw(P, buf), a, IF a.ret THEN "raw" ELSE "rawx")
+           \* twe = to_writer into a writer that has already failed: the counter keeps counting (C09)
+           \E op \in {"raw", "tw", "twe"} : Step(op, "", PI!GetRaw(P, buf), a, IF a.ret THEN "raw" ELSE "rawx")
 
 \* C12: init / reset / verify from EVERY reachable state give the fresh parser
 Fresh0 == PI!InitP(RootKind, buf, ParserMaxD).P
@@ -197,7 +198,8 @@ ValsAll  == << <<16, 5>>, <<16, 251>>, <<16, 127>>, <<16, 128>>, <<17, 255, 127>
                <<68>>, <<69>>, <<70, 0, 0, 0, 0, 0, 0, 240, 63>>, <<70, 1, 0, 0, 0, 0, 0, 248, 255>>,
                <<20, 0>>, <<20, 1, 120>>, <<20, 2, 0, 200>>, <<24, 0>>, <<24, 1, 170>>, <<24, 2, 0, 255>> >>
 NamesAB  == << <<97>>, <<98>>, <<99>> >>
-NamesRich == << <<>>, <<0>>, <<97>>, <<97, 0>>, <<97, 97>>, <<98>>, <<128>>, <<255>> >>
+NamesRich == << <<>>, <<0>>, <<97>>, <<97, 0>>, <<97, 0, 120>>, <<97, 0, 121>>, <<97, 97>>, <<98>>, <<128>>, <<255>> >>
+NamesE == << <<>>, <<97>> >>
 Rep(b, n) == [i \in 1..n |-> b]
 \* names whose length prefix needs 1 and 2 bytes (127 / 128) around short ones
 NamesLong == << <<97>>, Rep(109, 127), Rep(109, 128), <<122>> >>
